@@ -9,7 +9,8 @@
    get_unit_factor / _UNIT_PREFIX / unit_prefix are TRANSLATED from /repo on this run (Gen.GenUnits). *)
 From Coq Require Import ZArith QArith List Bool Sorted.
 From MV Require Import Lib.ListZ Lib.Rigid Lib.OctZ Gen.GenUnits
-  Model.DisplayModel Model.DisplayExec Model.DisplayUnits Proofs.DisplayProofs Proofs.DisplayUnitsProofs.
+  Model.DisplayModel Model.DisplayExec Model.DisplayUnits Model.DisplayTriangle
+  Proofs.DisplayProofs Proofs.DisplayUnitsProofs Proofs.DisplayTriangleProofs.
 Import ListNotations.
 Open Scope Z_scope.
 
@@ -114,7 +115,39 @@ Theorem C19_show_restores_style : forall (Sty : Type)
 Proof. exact show_restores_style_lem. Qed.
 Print Assumptions C19_show_restores_style.
 
+(* ---- make_Triangle, the one local shape generator that is modelled (integer vertices, coordinates x1000) *)
+(* a facet that is not magnetised along its normal is drawn as exactly its three vertices, in its plane *)
+Theorem C19_triangle_plain_exact : forall mag v0 v1 v2,
+  tri_thickened mag v0 v1 v2 = false ->
+  make_triangle_x1000 mag v0 v1 v2 = [v3smul 1000 v0; v3smul 1000 v1; v3smul 1000 v2] /\
+  Forall (fun d => dot3 (tri_vec v0 v1 v2) (v3sub d (v3smul 1000 v0)) = 0) (make_triangle_x1000 mag v0 v1 v2).
+Proof. exact triangle_plain_exact_lem. Qed.
+Print Assumptions C19_triangle_plain_exact.
+
+(* a facet magnetised along its normal (or not at all) is thickened: every drawn vertex is off the plane by
+   1e-3 * |vec| where vec = cross(edge, edge) is an AREA *)
+Theorem C19_triangle_thick_offset : forall mag v0 v1 v2 d,
+  tri_thickened mag v0 v1 v2 = true -> In d (make_triangle_x1000 mag v0 v1 v2) ->
+  let n := tri_vec v0 v1 v2 in
+  dot3 n (v3sub d (v3smul 1000 v0)) = dot3 n n \/ dot3 n (v3sub d (v3smul 1000 v0)) = - dot3 n n.
+Proof. exact triangle_thick_offset_lem. Qed.
+Print Assumptions C19_triangle_thick_offset.
+
+(* REFUTED on the faithful model (known finding on-surface/Triangle:magnetised-along-normal-or-not,scale-dependent):
+   "every drawn vertex of a Triangle is within 4e-3 x size of its surface" fails for the facet
+   (0,0,0),(100,0,0),(0,100,0) magnetised along z: its vertices are drawn 10 units off the plane *)
+Theorem C19_triangle_on_surface_refuted :
+  ~ (forall mag v0 v1 v2, triangle_on_surface mag v0 v1 v2 = true).
+Proof. exact triangle_on_surface_refuted_lem. Qed.
+Print Assumptions C19_triangle_on_surface_refuted.
+
 (* ---- non-vacuity *)
+(* the same facet at unit size satisfies the on-surface specification: the specification is satisfiable and
+   the refutation is about the scale law *)
+Example C19_triangle_unit_size_nonvacuous : triangle_on_surface (0, 0, 1) (0, 0, 0) (1, 0, 0) (0, 1, 0) = true.
+Proof. exact triangle_unit_size_ok. Qed.
+Print Assumptions C19_triangle_unit_size_nonvacuous.
+
 (* the section hypotheses are satisfiable: Z^3 with signed permutations and integer scalars *)
 Example C19_algebra_nonvacuous : ScaleLaws OctOps OctScale.
 Proof. exact OctScaleLaws. Qed.
